@@ -33,6 +33,20 @@ def state_rater_product():
         for rid in world.RATERS:
             out.append(list(pre) + [{"op": "rate", "rater": rid},
                                     {"op": "rate", "rater": rid}])
+    # ratings of a curve WITHOUT a fit, before and after it is preprocessed
+    # or gets a setting (the cached value of the earlier state is not the
+    # value of the later one)
+    for rid in ("R_et", "R_rf", "R_svr", "R_et_names_bin"):
+        out.append([{"op": "rate", "rater": rid},
+                    {"op": "apply", "pipe": "P1"},
+                    {"op": "rate", "rater": rid},
+                    {"op": "apply", "pipe": "P2"},
+                    {"op": "rate", "rater": rid}])
+        out.append([{"op": "rate", "rater": rid},
+                    {"op": "set", "key": "weight_cp", "val": "w_half"},
+                    {"op": "rate", "rater": rid},
+                    {"op": "apply", "pipe": "P1"},
+                    {"op": "rate", "rater": rid}])
     fitted = states["fitted"]
     real = [r for r in world.RATERS
             if str(world.RATERS[r]["regressor"]).lower() != "none"]
